@@ -22,7 +22,7 @@ ASSUMPTIONS = ['full panels (every geo on every date)', 'detection power is not 
 @st.composite
 def _spec(draw):
   fs = draw(frames.experiment_frame_spec('c19'))
-  return {'frame': fs, 'pass_target': draw(st.booleans()), 'refit': draw(st.booleans())}
+  return {'frame': fs, 'pass_target': draw(st.booleans()), 'refit': draw(st.booleans()), 'scribble': draw(st.booleans())}
 
 
 def strategy(tier):
@@ -82,7 +82,14 @@ def run(spec):
         cls.append('refit')
       except Exception:  # pylint: disable=broad-except
         d0 = None
-    d = _fit(df, kwargs, target, d0)
+    df_in = df.copy(deep=True) if spec.get('scribble') else df
+    d = _fit(df_in, kwargs, target, d0)
+    if spec.get('scribble'):
+      # the caller goes on editing its own frame (unit change, two rows dropped in place) before reading the results
+      if not df_in.equals(before):
+        viol.append(('C19:caller-frame-modified', det))
+      frames.scribble(df_in, names)
+      cls.append('caller-edits-frame-after-fit')
   except ValueError as e:
     msg = str(e)
     if 'Both control and treatment group ids must be present' in msg or 'at least 4' in msg:
